@@ -153,6 +153,7 @@ Theorem C17_not_addressed_ignored : forall cfg st e,
   fst (accept cfg st e) = st /\ deliveries_of (snd (accept cfg st e)) = [] /\
   forallb (fun x => negb (is_error x)) (snd (accept cfg st e)) = true.
 Proof. exact not_addressed_ignored. Qed.
+Print Assumptions C17_not_addressed_ignored.
 Theorem C17_retransmission_dropped : forall cfg st e,
   a_have_last st = true -> e_hdr e = a_last_hdr st ->
   deliveries_of (snd (accept cfg st e)) = [] /\
